@@ -46,6 +46,8 @@ FUNCS = [
     ("C01", "dataiter/data_frame.py", "DataFrame.__setitem__", [], "DataFrame_setitem"),
     ("C01", "dataiter/vector.py", "Vector._check_dimensions", ["self.ndim"], "Vector_check_dimensions"),
     ("C01", "dataiter/util.py", "length", ["len(value)"], "util_length"),
+    ("C01", "dataiter/vector.py", "Vector.length", [], "Vector_length"),
+    ("C01", "dataiter/data_frame.py", "DataFrame.nrow", [], "DataFrame_nrow"),
     ("C10", "dataiter/vector.py", "Vector.na_value", [], "Vector_na_value"),
     ("C10", "dataiter/vector.py", "Vector.na_dtype", [], "Vector_na_dtype"),
     ("C03", "dataiter/data_frame.py", "DataFrame.sort.sort_key", ["dir"], "DataFrame_sort_key"),
